@@ -35,6 +35,10 @@ type Built struct {
 	DumpV2 []KV // from RocksDB with v2 keys
 }
 
+// SmallBatchEvery > 0 makes every SmallBatchEvery-th file compile its RocksDB databases in
+// single-record batches with eight in flight (slow: seconds per file); set by the C02 command.
+var SmallBatchEvery = 0
+
 // Compile writes the data file, sets its mtime (the default SOA serial) and runs the real compilers.
 func Compile(scratch string, idx int, text []byte, mtime int64) *Built {
 	b := &Built{Dir: filepath.Join(scratch, fmt.Sprintf("db%d", idx))}
@@ -66,7 +70,7 @@ func Compile(scratch string, idx int, text []byte, mtime int64) *Built {
 		// compiler options vary with the file: the bulk builder, batches of default size, and tiny
 		// batches with several in flight (record sets then straddle batch boundaries)
 		opts := rdb.CompilationOptions{NumCPU: 1, UseV2KeySyntax: v2, UseBuilder: idx%4 == 0}
-		if idx%2 == 1 {
+		if SmallBatchEvery > 0 && idx%SmallBatchEvery == 1 {
 			opts = rdb.CompilationOptions{NumCPU: 4, UseV2KeySyntax: v2, BatchSize: 1, BatchNumParallel: 8}
 		}
 		if _, err := rdb.CompileToSpecificRDBVersion(in, dir, opts); err != nil {
